@@ -265,6 +265,21 @@ def r8_placeholders(ctx):
     ctx.analysed(ni.qual)
     G = "earthkit.workflows.graph.nodes"
     A, B = Obj(G + ".Node", {"name": "pa"}, name="IN-A"), Obj(G + ".Node", {"name": "pb"}, name="IN-B")
+    # eleven inputs: placeholders in numeric order (input10 after input9, not after input1)
+    many = [Obj(G + ".Node", {"name": f"p{i}"}, name=f"IN-{i}") for i in range(11)]
+    pay = Obj(F + ".Payload", {"args": [], "kwargs": {}, "func": Atom("f")}, name="USERPAY")
+    ip = Interp(repo, max_iter=12, max_concrete_iter=24, inline={f"{F}.Payload.copy", f"{F}.Payload.__init__", f"{F}.Payload.to_tuple", f"{F}.Node.input_name"},
+                type_facts={f"IN-{i}": {G + ".Node"} for i in range(11)})
+    for p in [q for q in ip.explore(ni, args={"payload": pay, "inputs": list(many), "num_outputs": 1, "name": None}) if q.exit[0] == "return"][:1]:
+        sup = [e for e in p.effects if e.kind == "call" and (e.data.get("name") or "").endswith("__init__") and "payload" in e.data["kwargs"]]
+        pl = sup[0].data["kwargs"]["payload"] if len(sup) == 1 else None
+        args_ = pl[1] if isinstance(pl, tuple) and len(pl) == 3 else None
+        if args_ != [f"input{i}" for i in range(11)]:
+            ctx.violation("C10.R8", ni.qual, loc(ni), "placeholders in input order",
+                          f"a node with 11 inputs stores the placeholders as {vkey(args_)[:160]}; expected input0 … input10 in numeric order — the i-th input must be passed "
+                          f"at the i-th position (stack / concatenate / flatten over 11 or more nodes would receive their sources in another order)")
+        else:
+            ctx.ok("C10.R8", loc(ni), "placeholders | 11 inputs -> input0 … input10 in order")
     for given, want in ((["lit"], ["lit", "input0", "input1"]), (["input1", "lit"], ["input1", "lit", "input0"]), ([], ["input0", "input1"])):
         pay = Obj(F + ".Payload", {"args": list(given), "kwargs": {"k": 1}, "func": Atom("f")}, name="USERPAY")
         ip = Interp(repo, max_iter=3, inline={f"{F}.Payload.copy", f"{F}.Payload.__init__", f"{F}.Payload.to_tuple", f"{F}.Node.input_name"},
